@@ -1036,6 +1036,11 @@ impl World {
         idx
     }
 
+    /// publish an application-message event made outside `apply_op` (media announcements)
+    pub fn publish_app(&mut self, author: usize, base: Option<StateKey>, ev: Event, rumor: UnsignedEvent, what: String) -> usize {
+        self.publish(author, Class::App, base, vec![], ev, Some(rumor), what, false)
+    }
+
     fn publish_commit(
         &mut self,
         m: usize,
